@@ -567,9 +567,9 @@ func (v *fnVC) builtin(x *ssa.Call, b *ssa.Builtin) {
 			nm := v.newConst(lp.mem, fmt.Sprintf("(Array Int %s)", v.memSrt[lp.mem]))
 			v.P.add("elemAxiom", "(assert (forall ((b Int) (i Int)) (! (and (= (ebase (elem b i)) b) (= (eidx (elem b i)) i) (= (akind (elem b i)) (- 1)) (= (root (elem b i)) (root b))) :pattern ((elem b i)))))")
 			// contents, by index
-			v.assume(fmt.Sprintf("(forall ((i Int)) (! (=> (and (<= 0 i) (< i (slen_ %[1]s))) (= (select %[2]s %[3]s) (select %[4]s %[5]s))) :pattern ((select %[2]s %[3]s))))", s, nm, lp.wrap(fmt.Sprintf("(elem %s i)", nb)), old, lp.wrap(fmt.Sprintf("(elem (sbase %[1]s) (+ (soff %[1]s) i))", s))))
+			v.assume(fmt.Sprintf("(forall ((i Int)) (! (=> (and (<= 0 i) (< i (slen_ %[1]s))) (= (select %[2]s %[3]s) (select %[4]s %[5]s))) :pattern ((select %[2]s %[3]s))))", s, nm, lp.wrap(fmt.Sprintf("(elem %s i)", nb)), old, lp.wrap(fmt.Sprintf("(elem (sbase %[1]s) %[2]s)", s, v.ix(app("soff", s), "i")))))
 			if more != "" {
-				v.assume(fmt.Sprintf("(forall ((i Int)) (! (=> (and (<= 0 i) (< i (slen_ %[1]s))) (= (select %[2]s %[3]s) (select %[4]s %[5]s))) :pattern ((select %[2]s %[3]s))))", more, nm, lp.wrap(fmt.Sprintf("(elem %s (+ (slen_ %s) i))", nb, s)), old, lp.wrap(fmt.Sprintf("(elem (sbase %[1]s) (+ (soff %[1]s) i))", more))))
+				v.assume(fmt.Sprintf("(forall ((i Int)) (! (=> (and (<= 0 i) (< i (slen_ %[1]s))) (= (select %[2]s %[3]s) (select %[4]s %[5]s))) :pattern ((select %[2]s %[3]s))))", more, nm, lp.wrap(fmt.Sprintf("(elem %s (+ (slen_ %s) i))", nb, s)), old, lp.wrap(fmt.Sprintf("(elem (sbase %[1]s) %[2]s)", more, v.ix(app("soff", more), "i")))))
 			}
 			// frame: nothing outside the new backing array changes
 			v.needInverseAxioms(lp)
